@@ -30,6 +30,10 @@ type Config struct {
 	FixedInputs  map[string]interface{} // concrete run: label -> value
 	Deadline     time.Time
 	MaxViolations int
+	// static partition of the path tree across workers: at the k-th fork (k<2) on a path this
+	// worker explores only alternatives j with j % PartCount[k] == PartIndex[k]
+	PartIndex [2]int
+	PartCount [2]int
 }
 
 // Violation is a failed obligation with a concrete witness.
@@ -65,6 +69,7 @@ type Stats struct {
 	SchedPoints   int
 	InitInstrs    int64
 	IfConverted   int
+	ForkSites     map[string]int
 	MaxDecisions  int
 	Observations  []string
 }
@@ -73,6 +78,7 @@ type decision struct {
 	taken int
 	rest  []int // remaining alternatives to explore
 	kind  string
+	multi bool
 }
 
 type pathAbort struct{ reason string }
@@ -120,6 +126,7 @@ type Exec struct {
 	opaques       map[string]Value
 	initTemplate  map[*ssa.Global]Value // contents of globals after package initialisation
 	initHash      uint64
+	skipped       bool
 }
 
 func NewExec(cfg *Config) (*Exec, error) {
@@ -190,8 +197,11 @@ func (ex *Exec) Run() {
 		}
 	}()
 	for {
+		ex.skipped = false
 		ex.runOnePath()
-		ex.Stats.Paths++
+		if !ex.skipped {
+			ex.Stats.Paths++
+		}
 		if len(ex.decisions) > ex.Stats.MaxDecisions {
 			ex.Stats.MaxDecisions = len(ex.decisions)
 		}
@@ -310,7 +320,7 @@ func (ex *Exec) runOnePath() {
 		}
 	}
 	ex.Stats.Instrs += ex.instrs
-	if len(ex.Stats.Samples) < 3 && ex.aborted == "" {
+	if len(ex.Stats.Samples) < 3 && ex.aborted == "" && !ex.skipped {
 		if m := ex.modelFor(nil); m != nil {
 			ex.Stats.Samples = append(ex.Stats.Samples, map[string]interface{}{"harness": ex.harnessName, "path": ex.Stats.Paths, "inputs": m, "decisions": ex.decisionList()})
 		}
@@ -340,7 +350,37 @@ func (ex *Exec) choose(alts []int, kind string) int {
 		ex.dpos++
 		return d.taken
 	}
-	ex.decisions = append(ex.decisions, decision{taken: alts[0], rest: append([]int(nil), alts[1:]...), kind: kind})
+	multi := len(alts) > 1
+	if multi && ex.cfg.PartCount[0] > 0 {
+		level := 0
+		for i := 0; i < ex.dpos && i < len(ex.decisions); i++ {
+			if ex.decisions[i].multi {
+				level++
+			}
+		}
+		if level < 2 && ex.cfg.PartCount[level] > 1 {
+			var mine []int
+			for j, a := range alts {
+				if j%ex.cfg.PartCount[level] == ex.cfg.PartIndex[level] {
+					mine = append(mine, a)
+				}
+			}
+			if len(mine) == 0 {
+				ex.decisions = append(ex.decisions, decision{taken: alts[0], kind: kind, multi: true})
+				ex.dpos++
+				ex.skipped = true
+				ex.endPath("other partition")
+			}
+			alts = mine
+		}
+	}
+	if len(alts) > 1 {
+		if ex.Stats.ForkSites == nil {
+			ex.Stats.ForkSites = map[string]int{}
+		}
+		ex.Stats.ForkSites[kind+"@"+ex.posOf(ex.curFrame())] += len(alts) - 1
+	}
+	ex.decisions = append(ex.decisions, decision{taken: alts[0], rest: append([]int(nil), alts[1:]...), kind: kind, multi: multi})
 	ex.dpos++
 	return alts[0]
 }
@@ -584,8 +624,15 @@ func (ex *Exec) curFrame() *frame {
 
 func (ex *Exec) posOf(fr *frame) string {
 	for f := fr; f != nil; f = f.caller {
-		if f.curInstr != nil && f.curInstr.Pos() != token.NoPos {
-			p := ex.prog.Fset.Position(f.curInstr.Pos())
+		if f.curInstr == nil {
+			continue
+		}
+		pos := f.curInstr.Pos()
+		if ifi, ok := f.curInstr.(*ssa.If); ok && pos == token.NoPos {
+			pos = ifi.Cond.Pos()
+		}
+		if pos != token.NoPos {
+			p := ex.prog.Fset.Position(pos)
 			return fmt.Sprintf("%s:%d", trimPath(p.Filename), p.Line)
 		}
 	}
@@ -751,4 +798,57 @@ func (ex *Exec) templateHash() uint64 {
 		walk(ex.initTemplate[g], 0)
 	}
 	return h
+}
+
+// Merge folds the results of another worker of the same harness (disjoint partition) into ex.
+func (ex *Exec) Merge(o *Exec) {
+	a, b := &ex.Stats, &o.Stats
+	a.Paths += b.Paths
+	a.Instrs += b.Instrs
+	a.Obligations += b.Obligations
+	a.Discharged += b.Discharged
+	a.Disagreements += b.Disagreements
+	a.SchedPoints += b.SchedPoints
+	a.IfConverted += b.IfConverted
+	if b.MaxDecisions > a.MaxDecisions {
+		a.MaxDecisions = b.MaxDecisions
+	}
+	for k, v := range b.Reached {
+		a.Reached[k] += v
+	}
+	for k := range b.Funcs {
+		a.Funcs[k] = true
+	}
+	for k, v := range b.Havocked {
+		a.Havocked[k] += v
+	}
+	for k, v := range b.Stubs {
+		a.Stubs[k] += v
+	}
+	for k, v := range b.SolverQueries {
+		a.SolverQueries[k] += v
+	}
+	for k, v := range b.SolverTime {
+		a.SolverTime[k] += v
+	}
+	for k, v := range b.ForkSites {
+		if a.ForkSites == nil {
+			a.ForkSites = map[string]int{}
+		}
+		a.ForkSites[k] += v
+	}
+	for _, m := range b.Inconclusive {
+		ex.inconclusive("%s", m)
+	}
+	for _, s := range b.Samples {
+		if len(a.Samples) < 3 {
+			a.Samples = append(a.Samples, s)
+		}
+	}
+	for _, v := range o.Violations {
+		if !ex.vioKeys[v.Key()] {
+			ex.vioKeys[v.Key()] = true
+			ex.Violations = append(ex.Violations, v)
+		}
+	}
 }
